@@ -32,8 +32,15 @@ for mut in muts:
             env = dict(os.environ, VALJEAN_SRC=tmp, VERIF_NO_CORPUS='1',
                        VERIF_SHARDS=os.environ.get('VERIF_SHARDS', '16'))
             t0 = time.time()
+            evp = os.path.join(HERE, 'evidence', chk + '.json')
+            saved = open(evp, 'rb').read() if os.path.exists(evp) else None
             res = subprocess.run([os.path.join(HERE, 'vcheck'), chk, '--tier', 'quick'], env=env,
                                  capture_output=True, text=True)
+            # evidence written by a mutated run must not stay around
+            if saved is not None:
+                open(evp, 'wb').write(saved)
+            elif os.path.exists(evp):
+                os.remove(evp)
             verdict = {0: 'MISSED', 1: 'DETECTED'}.get(res.returncode, f'ERROR({res.returncode})')
             buckets = [l for l in res.stdout.splitlines() if l.startswith('# bucket')]
             print(f"{mut['name']:45s} {chk} {verdict} {time.time()-t0:5.1f}s "
@@ -41,5 +48,3 @@ for mut in muts:
             sys.stdout.flush()
     finally:
         shutil.rmtree(tmp, ignore_errors=True)
-        # evidence written by mutated runs must not stay around
-subprocess.run(['git', '-C', HERE, 'checkout', '--', 'evidence'], capture_output=True)
